@@ -382,6 +382,7 @@ fn run_once(
     }
     let mut model = harness::new_model(store_cfg);
     model.cfg.sees_all_calls = true;
+    model.cfg.judge_collateral_pins = sc.property == "C12";
     let mut resolver = Resolver {
         keys: &sc.keys,
         writer: 0,
